@@ -178,7 +178,7 @@ func (e *emitter) emit(stream, kind string, toks []string, oracles bool) {
 		return
 	}
 	probs := audit(e.F, line, res)
-	e.c.Tally(6)
+	e.c.Tally(7)
 	seen := map[string]bool{}
 	for _, p := range probs {
 		if seen[p.oracle] {
@@ -442,8 +442,235 @@ func run(c *fw.Ctx) {
 		}
 		e.emit("soup", kind, []string{fmt.Sprintf("%s:0:%s", op, hexv(soup(r, Fx, kind))), "D:1", "t:0"}, true)
 	}
+	// 7. parse, change the result, parse the same text again
+	pool := map[string][]parseText{}
+	for _, kind := range []string{"d", "v"} {
+		for i := 0; i < 5; i++ {
+			pool[kind] = append(pool[kind], mkParseText(r, Fx, kind, ""))
+		}
+	}
+	for i := 0; i < c.N(6000, 120000); i++ {
+		kind := []string{"d", "d", "v"}[r.Intn(3)]
+		var pt parseText
+		if r.Intn(3) == 0 {
+			pt = pool[kind][r.Intn(len(pool[kind]))] // a handful of texts parsed over and over
+		} else {
+			pt = mkParseText(r, Fx, kind, fmt.Sprintf("u%dx%d", c.Seed, i)) // a text this process has not parsed yet
+		}
+		e.emit("reparse", kind, reparseSeq(r, Fx, kind, pt, pool[kind]), true)
+	}
+	// the same through the schema package (Go only)
+	for i := 0; i < c.N(1500, 30000); i++ {
+		var dt, vt parseText
+		if r.Intn(4) == 0 {
+			dt, vt = pool["d"][r.Intn(5)], pool["v"][r.Intn(5)]
+		} else {
+			dt = mkParseText(r, Fx, "d", fmt.Sprintf("s%dx%d", c.Seed, i))
+			vt = mkParseText(r, Fx, "v", fmt.Sprintf("s%dx%d", c.Seed, i))
+		}
+		if !schemaSafe(dt.text) || !schemaSafe(vt.text) {
+			continue
+		}
+		dk, vk := dt.editKey(r), vt.editKey(r)
+		idx, res := c.Opf("C19 probe reparse %s %s %d %d %s", hexv(dt.text), hexv(vt.text), dk, vk, hexv(plainVal(r)+"!"))
+		c.Count("stream:schema-reparse")
+		if strings.Contains(res, "err") {
+			c.Count("schema-reparse:some-parse-failed")
+		}
+		c.Check("parse-function", idx)
+	}
 	c.Note(fmt.Sprintf("distinct non-trivial lines (hash count): %d", len(e.non)))
 	for h := range e.non {
 		c.Nontrivial(strconv.FormatUint(h, 16))
 	}
+}
+
+// parseText is a text of the deptest / versiontest syntax together with the
+// valued keys it holds and some it does not.
+type parseText struct {
+	text    string
+	present []int // valued keys in the text
+	absent  []int // valued keys not in the text
+	flags   []int // flag keys not in the text
+}
+
+// editKey: a valued key to set on a parse result (replacing or adding).
+func (p parseText) editKey(r *rand.Rand) int {
+	if len(p.present) > 0 && (len(p.absent) == 0 || r.Intn(2) == 0) {
+		return p.present[r.Intn(len(p.present))]
+	}
+	if len(p.absent) > 0 {
+		return p.absent[r.Intn(len(p.absent))]
+	}
+	return 3
+}
+
+// mkParseText writes a well-formed text with at least one valued attribute
+// (mostly): keys in allKeys order, names in the case the parser's dictionary
+// accepts, values free of white space (one quoted value last for deptest);
+// uniq makes the text one that has not been parsed before.
+func mkParseText(r *rand.Rand, Fx *facts, kind, uniq string) parseText {
+	kf := Fx.Dep
+	if kind == "v" {
+		kf = Fx.Ver
+	}
+	var pt parseText
+	var items []string
+	nValued := 0
+	want := 1 + r.Intn(3)
+	if r.Intn(25) == 0 {
+		want = 0 // flags only: the nil-map case
+	}
+	for _, k := range kf.AllKeys {
+		isFlag := isIn(kf.FlagKeys, k)
+		name := keyName(kind, int(k))
+		if r.Intn(3) == 0 {
+			name = strings.ToLower(name)
+		}
+		switch {
+		case isFlag && r.Intn(4) == 0:
+			items = append(items, name)
+		case isFlag:
+			pt.flags = append(pt.flags, int(k))
+		case nValued < want && r.Intn(3) != 0:
+			nValued++
+			v := plainVal(r) + uniq
+			items = append(items, name, v)
+			pt.present = append(pt.present, int(k))
+		default:
+			pt.absent = append(pt.absent, int(k))
+		}
+	}
+	if nValued < want && len(pt.absent) > 0 { // make sure of one valued attribute
+		k := pt.absent[len(pt.absent)-1]
+		pt.absent = pt.absent[:len(pt.absent)-1]
+		pt.present = append(pt.present, k)
+		v := "last" + uniq
+		if kind == "d" && r.Intn(3) == 0 {
+			v = strconv.Quote("c19 " + uniq + " runtime") // a quoted value, written last
+		}
+		items = append(items, keyName(kind, k), v)
+	}
+	sep := " "
+	if r.Intn(10) == 0 {
+		sep = "  "
+	}
+	pt.text = strings.Join(items, sep)
+	return pt
+}
+
+// reparseSeq: parse a text, change what came back (replace the value of a key
+// the text holds, add a key it does not hold, add a flag), parse the same text
+// again; with clones taken before and after, with several results alive, through
+// the round-trip op and the single-attribute form. Every parse is followed by a
+// dump, the line ends in a dump and a comparison matrix.
+func reparseSeq(r *rand.Rand, Fx *facts, kind string, pt parseText, pool []parseText) []string {
+	T := hexv(pt.text)
+	val := func() string { return hexv(plainVal(r) + []string{"", "'", "2"}[r.Intn(3)]) }
+	edit := func(reg int) []string {
+		var out []string
+		for n := 1 + r.Intn(3); n > 0; n-- {
+			switch x := r.Intn(10); {
+			case x < 4 && len(pt.present) > 0:
+				out = append(out, fmt.Sprintf("s:%d:%d:%s", reg, pt.present[r.Intn(len(pt.present))], val()))
+			case x < 8 && len(pt.absent) > 0:
+				out = append(out, fmt.Sprintf("s:%d:%d:%s", reg, pt.absent[r.Intn(len(pt.absent))], val()))
+			case len(pt.flags) > 0:
+				out = append(out, fmt.Sprintf("s:%d:%d:-", reg, pt.flags[r.Intn(len(pt.flags))]))
+			default:
+				out = append(out, fmt.Sprintf("s:%d:%d:%s", reg, pt.editKey(r), val()))
+			}
+		}
+		return out
+	}
+	p := func(reg int) string { return fmt.Sprintf("p:%d:%s", reg, T) }
+	var toks []string
+	add := func(ts ...string) { toks = append(toks, ts...) }
+	probe := func(reg int) {
+		if k := pt.editKey(r); r.Intn(2) == 0 {
+			add(fmt.Sprintf("g:%d:%d", reg, k))
+		}
+		if r.Intn(3) == 0 {
+			add(fmt.Sprintf("t:%d", reg))
+		}
+	}
+	switch shape := r.Intn(8); shape {
+	case 0: // parse, edit, parse
+		add(p(0), "D:1")
+		add(edit(0)...)
+		add(p(1), "D:2")
+		probe(1)
+	case 1: // clone kept aside before the edit
+		add(p(0), "c:0:2", "D:3")
+		add(edit(0)...)
+		add(p(1), "D:3")
+		probe(1)
+	case 2: // the clone is edited, then the original
+		add(p(0), "c:0:1")
+		add(edit(1)...)
+		add(p(2), "D:3")
+		add(edit(0)...)
+		add(p(3), "D:4")
+		probe(3)
+	case 3: // several results alive, later ones edited
+		add(p(0), p(1), p(2), "D:3")
+		add(edit(1)...)
+		add(edit(2)...)
+		add("D:3", p(3), "D:4")
+		add(edit(0)...)
+		add(p(4), "D:5")
+	case 4: // through write + parse: build the set, round-trip, edit the copy, round-trip again
+		add(p(0), "D:1", "rt:0:1")
+		add(edit(1)...)
+		add("rt:0:2", "k:0:2", "D:3", p(3), "D:4")
+	case 5: // overwrite the register itself by the second parse
+		add(p(0), "D:1")
+		add(edit(0)...)
+		add("D:1", p(0), "D:1", "c:0:1")
+		add(edit(0)...)
+		add(p(2), "D:3")
+	case 6: // single-attribute form (versiontest.ParseSingle); for deptest: two texts interleaved
+		if kind == "v" && len(pt.present) > 0 {
+			k := pt.present[0]
+			v := val()
+			add(fmt.Sprintf("qs:0:%d:%s", k, v), "D:1")
+			add(edit(0)...)
+			add(fmt.Sprintf("s:0:%d:%s", k, val()), fmt.Sprintf("qs:1:%d:%s", k, v), "D:2")
+			q := hexv(strings.ToLower(keyName(kind, k)) + " " + pt.text)
+			add("q:2:"+q, "D:3", fmt.Sprintf("s:2:%d:%s", k, val()), "q:3:"+q, "D:4")
+		} else {
+			o := pool[r.Intn(len(pool))]
+			add(p(0), "p:1:"+hexv(o.text), "D:2")
+			add(edit(0)...)
+			add(edit(1)...)
+			add(p(2), "p:3:"+hexv(o.text), "D:4")
+		}
+	default: // random walk over 4 registers and the text (plus one pool text)
+		o := hexv(pool[r.Intn(len(pool))].text)
+		add(p(0), "D:1")
+		for n := 4 + r.Intn(12); n > 0; n-- {
+			reg := r.Intn(4)
+			switch x := r.Intn(10); {
+			case x < 3:
+				add(p(reg), "D:4")
+			case x < 4:
+				add(fmt.Sprintf("p:%d:%s", reg, o), "D:4")
+			case x < 7:
+				add(edit(reg)...)
+			case x < 9:
+				add(fmt.Sprintf("c:%d:%d", reg, r.Intn(4)))
+			default:
+				add(fmt.Sprintf("n:%d", reg))
+			}
+		}
+		add(p(4), p(5), "D:6")
+	}
+	n := 0
+	for _, t := range toks {
+		f := strings.Split(t, ":")
+		if tg := target(f); tg >= n {
+			n = tg + 1
+		}
+	}
+	return append(toks, fmt.Sprintf("D:%d", n), fmt.Sprintf("K:%d", n))
 }
